@@ -1,0 +1,613 @@
+//go:build verif
+
+package cbor
+
+// Contracts for the verifier in /verif (govc). Comment-only file.
+//
+// Byte-level specification of RFC 8949 heads, as an independent parser would
+// read them: mt = major type, ai = additional information, argof = the
+// argument, headlen = bytes taken by the head. Every leaf encoder is proved
+// (machine arithmetic, arith bv) to emit a head with the right major type and
+// argument and a payload of exactly the announced length; its token-level
+// effect on the stream ghosts ("one data item") is an assumed postcondition
+// (ensures!) justified by that byte-level postcondition and RFC 8949 3.
+
+//@ spec ai(b bytes, p int) uint8 = b[p] % 32
+//@ spec mt(b bytes, p int) uint8 = b[p] / 32
+//@ spec argof(b bytes, p int) uint64 = ite(ai(b, p) < 24, uint64(ai(b, p)), ite(ai(b, p) == 24, uint64(b[p+1]), ite(ai(b, p) == 25, uint64(b[p+1]) * 256 + uint64(b[p+2]), ite(ai(b, p) == 26, uint64(b[p+1]) * 16777216 + uint64(b[p+2]) * 65536 + uint64(b[p+3]) * 256 + uint64(b[p+4]), uint64(b[p+1]) * 72057594037927936 + uint64(b[p+2]) * 281474976710656 + uint64(b[p+3]) * 1099511627776 + uint64(b[p+4]) * 4294967296 + uint64(b[p+5]) * 16777216 + uint64(b[p+6]) * 65536 + uint64(b[p+7]) * 256 + uint64(b[p+8])))))
+//@ spec headlen(b bytes, p int) int = ite(ai(b, p) < 24, 1, ite(ai(b, p) == 24, 2, ite(ai(b, p) == 25, 3, ite(ai(b, p) == 26, 5, 9))))
+//@ spec headok(b bytes, p int) bool = ai(b, p) <= 27
+//@ spec bc(n uint64) int = ite(n < 256, 0, ite(n < 65536, 1, ite(n < 4294967296, 3, 7)))
+//@ spec minorof(n uint64) uint8 = ite(n < 256, 24, ite(n < 65536, 25, ite(n < 4294967296, 26, 27)))
+//@ spec onehead(res bytes, dst bytes, major uint8, n uint64) bool = prefix(res, dst) && len(res) == len(dst) + headlen(res, len(dst)) && headok(res, len(dst)) && mt(res, len(dst)) == major && argof(res, len(dst)) == n
+
+//@ track Encoder.AppendString, Encoder.AppendBool, Encoder.AppendInt, Encoder.AppendInt64, Encoder.AppendUint, Encoder.AppendUint8, Encoder.AppendUint16, Encoder.AppendUint32, Encoder.AppendUint64, Encoder.AppendFloat32, Encoder.AppendFloat64, Encoder.AppendTime, Encoder.AppendDuration, Encoder.AppendStringer
+
+//@ config JSONMarshalFunc != nil
+
+//@ var JSONMarshalFunc(v) res, err
+//@   modifies nothing
+
+//@ func appendCborTypePrefix(dst, major, number) res
+//@   props C09 C08 C01 C02 C03
+//@   arith bv
+//@   flag tags binary_log
+//@   requires major % 32 == 0
+//@   ensures onehead(res, dst, major / 32, number)
+//@   ensures ai(res, len(dst)) >= 24 && ai(res, len(dst)) == minorof(number)
+//@   loop 1:
+//@     invariant -1 <= byteCount && byteCount <= bc(number) && len(dst) == len(dst0) + 1 + (bc(number) - byteCount) && prefix(dst, dst0) && dst[len(dst0)] == major | minorof(number)
+//@     invariant ((byteCount < 0 && 0 <= bc(number)) ==> dst[len(dst0) + 1 + (bc(number) - 0)] == uint8(number >> 0)) && ((byteCount < 1 && 1 <= bc(number)) ==> dst[len(dst0) + 1 + (bc(number) - 1)] == uint8(number >> 8)) && ((byteCount < 2 && 2 <= bc(number)) ==> dst[len(dst0) + 1 + (bc(number) - 2)] == uint8(number >> 16)) && ((byteCount < 3 && 3 <= bc(number)) ==> dst[len(dst0) + 1 + (bc(number) - 3)] == uint8(number >> 24)) && ((byteCount < 4 && 4 <= bc(number)) ==> dst[len(dst0) + 1 + (bc(number) - 4)] == uint8(number >> 32)) && ((byteCount < 5 && 5 <= bc(number)) ==> dst[len(dst0) + 1 + (bc(number) - 5)] == uint8(number >> 40)) && ((byteCount < 6 && 6 <= bc(number)) ==> dst[len(dst0) + 1 + (bc(number) - 6)] == uint8(number >> 48)) && ((byteCount < 7 && 7 <= bc(number)) ==> dst[len(dst0) + 1 + (bc(number) - 7)] == uint8(number >> 56))
+//@     decreases byteCount + 1
+
+//@ func (Encoder).AppendKey(e, dst, key) res
+//@   props C09 C08 C01 C02 C03
+//@   arith int
+//@   flag noovf
+//@   flag tags binary_log
+//@   requires len(key) < 4611686018427387904
+//@   ensures! lex(res) == 0 && mode(res) == AFTER_KEY && stk(res) == stk(dst) && prefix(res, dst) && len(res) > len(dst)
+//@   ensures len(dst) >= 1 ==> prefix(res, dst) && mt(res, len(dst)) == 3 && argof(res, len(dst)) == uint64(len(key)) && len(res) == len(dst) + headlen(res, len(dst)) + len(key)
+
+//@ func (Encoder).AppendString(e, dst, s) res
+//@   props C09 C08 C01 C02 C03
+//@   arith int
+//@   flag noovf
+//@   flag tags binary_log
+//@   requires len(s) < 4611686018427387904
+//@   ensures prefix(res, dst) && headok(res, len(dst)) && mt(res, len(dst)) == 3 && argof(res, len(dst)) == uint64(len(s)) && len(res) == len(dst) + headlen(res, len(dst)) + len(s)
+//@   ensures forall k in 0..len(s): res[len(dst) + headlen(res, len(dst)) + k] == s[k]
+//@   ensures! emitsvalue(res, dst)
+
+//@ func (Encoder).AppendBytes(e, dst, s) res
+//@   props C09 C08 C01 C02 C03
+//@   arith int
+//@   flag noovf
+//@   flag tags binary_log
+//@   requires len(s) < 4611686018427387904
+//@   ensures prefix(res, dst) && headok(res, len(dst)) && mt(res, len(dst)) == 2 && argof(res, len(dst)) == uint64(len(s)) && len(res) == len(dst) + headlen(res, len(dst)) + len(s)
+//@   ensures forall k in 0..len(s): res[len(dst) + headlen(res, len(dst)) + k] == s[k]
+//@   ensures! emitsvalue(res, dst)
+
+//@ func AppendEmbeddedJSON(dst, s) res
+//@   props C09 C08 C01 C02 C03
+//@   arith int
+//@   flag noovf
+//@   flag tags binary_log
+//@   requires len(s) < 4611686018427387904
+//@   ensures prefix(res, dst) && res[len(dst) + 0] == 217 && res[len(dst) + 1] == 1 && res[len(dst) + 2] == 6
+//@   ensures headok(res, len(dst) + 3) && mt(res, len(dst) + 3) == 2 && argof(res, len(dst) + 3) == uint64(len(s)) && len(res) == len(dst) + 3 + headlen(res, len(dst) + 3) + len(s)
+//@   ensures forall k in 0..len(s): res[len(dst) + 3 + headlen(res, len(dst) + 3) + k] == s[k]
+//@   ensures! emitsvalue(res, dst)
+
+//@ func AppendEmbeddedCBOR(dst, s) res
+//@   props C09 C08 C01 C02 C03
+//@   arith int
+//@   flag noovf
+//@   flag tags binary_log
+//@   requires len(s) < 4611686018427387904
+//@   ensures prefix(res, dst) && res[len(dst) + 0] == 216 && res[len(dst) + 1] == 63
+//@   ensures headok(res, len(dst) + 2) && mt(res, len(dst) + 2) == 2 && argof(res, len(dst) + 2) == uint64(len(s)) && len(res) == len(dst) + 2 + headlen(res, len(dst) + 2) + len(s)
+//@   ensures forall k in 0..len(s): res[len(dst) + 2 + headlen(res, len(dst) + 2) + k] == s[k]
+//@   ensures! emitsvalue(res, dst)
+
+//@ func (Encoder).AppendHex(e, dst, val) res
+//@   props C09 C08 C01 C02 C03
+//@   arith int
+//@   flag noovf
+//@   flag tags binary_log
+//@   requires len(val) < 4611686018427387904
+//@   ensures prefix(res, dst) && res[len(dst) + 0] == 217 && res[len(dst) + 1] == 1 && res[len(dst) + 2] == 7
+//@   ensures headok(res, len(dst) + 3) && mt(res, len(dst) + 3) == 2 && argof(res, len(dst) + 3) == uint64(len(val)) && len(res) == len(dst) + 3 + headlen(res, len(dst) + 3) + len(val)
+//@   ensures forall k in 0..len(val): res[len(dst) + 3 + headlen(res, len(dst) + 3) + k] == val[k]
+//@   ensures! emitsvalue(res, dst)
+
+//@ func (Encoder).AppendIPAddr(e, dst, ip) res
+//@   props C09 C08 C01 C02 C03
+//@   arith int
+//@   flag noovf
+//@   flag tags binary_log
+//@   requires len(ip) < 4611686018427387904
+//@   ensures prefix(res, dst) && res[len(dst) + 0] == 217 && res[len(dst) + 1] == 1 && res[len(dst) + 2] == 4
+//@   ensures headok(res, len(dst) + 3) && mt(res, len(dst) + 3) == 2 && argof(res, len(dst) + 3) == uint64(len(ip)) && len(res) == len(dst) + 3 + headlen(res, len(dst) + 3) + len(ip)
+//@   ensures forall k in 0..len(ip): res[len(dst) + 3 + headlen(res, len(dst) + 3) + k] == ip[k]
+//@   ensures! emitsvalue(res, dst)
+
+//@ func (Encoder).AppendMACAddr(e, dst, ha) res
+//@   props C09 C08 C01 C02 C03
+//@   arith int
+//@   flag noovf
+//@   flag tags binary_log
+//@   requires len(ha) < 4611686018427387904
+//@   ensures prefix(res, dst) && res[len(dst) + 0] == 217 && res[len(dst) + 1] == 1 && res[len(dst) + 2] == 4
+//@   ensures headok(res, len(dst) + 3) && mt(res, len(dst) + 3) == 2 && argof(res, len(dst) + 3) == uint64(len(ha)) && len(res) == len(dst) + 3 + headlen(res, len(dst) + 3) + len(ha)
+//@   ensures forall k in 0..len(ha): res[len(dst) + 3 + headlen(res, len(dst) + 3) + k] == ha[k]
+//@   ensures! emitsvalue(res, dst)
+
+//@ func (Encoder).AppendNil(e, dst) res
+//@   props C09 C08 C01 C02 C03
+//@   arith int
+//@   flag noovf
+//@   flag tags binary_log
+//@   ensures prefix(res, dst) && len(res) == len(dst) + 1 && res[len(dst)] == 246
+//@   ensures! emitsvalue(res, dst)
+
+//@ func (Encoder).AppendBeginMarker(e, dst) res
+//@   props C09 C08 C01 C02 C03
+//@   arith int
+//@   flag noovf
+//@   flag tags binary_log
+//@   ensures prefix(res, dst) && len(res) == len(dst) + 1 && res[len(dst)] == 191
+//@   ensures! lex(res) == 0 && mode(res) == OBJ_FIRST && stk(res) == pushstk(mode(dst), stk(dst)) && prefix(res, dst) && len(res) == len(dst) + 1
+
+//@ func (Encoder).AppendEndMarker(e, dst) res
+//@   props C09 C08 C01 C02 C03
+//@   arith int
+//@   flag noovf
+//@   flag tags binary_log
+//@   ensures prefix(res, dst) && len(res) == len(dst) + 1 && res[len(dst)] == 255
+//@   ensures! lex(res) == 0 && mode(res) == closemode(stk(dst)) && stk(res) == popstk(stk(dst)) && prefix(res, dst) && len(res) == len(dst) + 1
+
+//@ func (Encoder).AppendArrayStart(e, dst) res
+//@   props C09 C08 C01 C02 C03
+//@   arith int
+//@   flag noovf
+//@   flag tags binary_log
+//@   ensures prefix(res, dst) && len(res) == len(dst) + 1 && res[len(dst)] == 159
+//@   ensures! lex(res) == 0 && mode(res) == ARR_FIRST && stk(res) == pushstk(mode(dst), stk(dst)) && prefix(res, dst) && len(res) == len(dst) + 1
+
+//@ func (Encoder).AppendArrayEnd(e, dst) res
+//@   props C09 C08 C01 C02 C03
+//@   arith int
+//@   flag noovf
+//@   flag tags binary_log
+//@   ensures prefix(res, dst) && len(res) == len(dst) + 1 && res[len(dst)] == 255
+//@   ensures! lex(res) == 0 && mode(res) == closemode(stk(dst)) && stk(res) == popstk(stk(dst)) && prefix(res, dst) && len(res) == len(dst) + 1
+
+//@ func (Encoder).AppendArrayDelim(e, dst) res
+//@   props C09 C08 C01 C02 C03
+//@   arith int
+//@   flag noovf
+//@   flag tags binary_log
+//@   ensures same(res, dst)
+
+//@ func (Encoder).AppendLineBreak(e, dst) res
+//@   props C09 C08 C01 C02 C03
+//@   arith int
+//@   flag noovf
+//@   flag tags binary_log
+//@   ensures same(res, dst)
+
+//@ func (Encoder).AppendObjectData(e, dst, o) res
+//@   props C09 C01 C03
+//@   arith int
+//@   flag tags binary_log
+//@   requires objbuf(dst) && stk(dst) == STK_OBJ
+//@   requires len(o) >= 2 && lex(o) == 0 && mode(o) == OBJ_NEXT && stk(o) == STK_OBJ
+//@   ensures lex(res) == 0 && mode(res) == OBJ_NEXT && stk(res) == stk(dst) && prefix(res, dst) && len(res) == len(dst) + len(o) - 1
+
+//@ func (Encoder).AppendBool(e, dst, val) res
+//@   props C09 C08 C01 C02 C03
+//@   arith int
+//@   flag noovf
+//@   flag tags binary_log
+//@   ensures prefix(res, dst) && len(res) == len(dst) + 1 && res[len(dst)] == ite(val, 0xf5, 0xf4)
+//@   ensures! emitsvalue(res, dst)
+
+//@ func (Encoder).AppendInt(e, dst, val) res
+//@   props C09 C08 C01 C02 C03
+//@   arith bv
+//@   flag tags binary_log
+//@   ensures val >= 0 ==> onehead(res, dst, 0, uint64(val))
+//@   ensures val < 0 ==> onehead(res, dst, 1, uint64(-1 - val))
+//@   ensures! emitsvalue(res, dst)
+
+//@ func (Encoder).AppendInt64(e, dst, val) res
+//@   props C09 C08 C01 C02 C03
+//@   arith bv
+//@   flag tags binary_log
+//@   ensures val >= 0 ==> onehead(res, dst, 0, uint64(val))
+//@   ensures val < 0 ==> onehead(res, dst, 1, uint64(-1 - val))
+//@   ensures! emitsvalue(res, dst)
+
+//@ func (Encoder).AppendInt8(e, dst, val) res
+//@   props C09 C08 C01 C02 C03
+//@   arith bv
+//@   flag tags binary_log
+//@   ensures val >= 0 ==> onehead(res, dst, 0, uint64(int64(val)))
+//@   ensures val < 0 ==> onehead(res, dst, 1, uint64(-1 - int64(val)))
+//@   ensures! emitsvalue(res, dst)
+
+//@ func (Encoder).AppendInt16(e, dst, val) res
+//@   props C09 C08 C01 C02 C03
+//@   arith bv
+//@   flag tags binary_log
+//@   ensures val >= 0 ==> onehead(res, dst, 0, uint64(int64(val)))
+//@   ensures val < 0 ==> onehead(res, dst, 1, uint64(-1 - int64(val)))
+//@   ensures! emitsvalue(res, dst)
+
+//@ func (Encoder).AppendInt32(e, dst, val) res
+//@   props C09 C08 C01 C02 C03
+//@   arith bv
+//@   flag tags binary_log
+//@   ensures val >= 0 ==> onehead(res, dst, 0, uint64(int64(val)))
+//@   ensures val < 0 ==> onehead(res, dst, 1, uint64(-1 - int64(val)))
+//@   ensures! emitsvalue(res, dst)
+
+//@ func (Encoder).AppendUint(e, dst, val) res
+//@   props C09 C08 C01 C02 C03
+//@   arith bv
+//@   flag tags binary_log
+//@   flag replay cbor_uint val=val
+//@   ensures onehead(res, dst, 0, uint64(val))
+//@   ensures! emitsvalue(res, dst)
+
+//@ func (Encoder).AppendUint8(e, dst, val) res
+//@   props C09 C08 C01 C02 C03
+//@   arith bv
+//@   flag tags binary_log
+//@   flag replay cbor_uint val=val
+//@   ensures onehead(res, dst, 0, uint64(val))
+//@   ensures! emitsvalue(res, dst)
+
+//@ func (Encoder).AppendUint16(e, dst, val) res
+//@   props C09 C08 C01 C02 C03
+//@   arith bv
+//@   flag tags binary_log
+//@   flag replay cbor_uint val=val
+//@   ensures onehead(res, dst, 0, uint64(val))
+//@   ensures! emitsvalue(res, dst)
+
+//@ func (Encoder).AppendUint32(e, dst, val) res
+//@   props C09 C08 C01 C02 C03
+//@   arith bv
+//@   flag tags binary_log
+//@   flag replay cbor_uint val=val
+//@   ensures onehead(res, dst, 0, uint64(val))
+//@   ensures! emitsvalue(res, dst)
+
+//@ func (Encoder).AppendUint64(e, dst, val) res
+//@   props C09 C08 C01 C02 C03
+//@   arith bv
+//@   flag tags binary_log
+//@   flag replay cbor_uint val=val
+//@   ensures onehead(res, dst, 0, uint64(val))
+//@   ensures! emitsvalue(res, dst)
+
+//@ func (Encoder).AppendStrings(e, dst, vals) res
+//@   props C09 C08 C01 C02 C03
+//@   arith int
+//@   flag noovf
+//@   flag tags binary_log
+//@   ensures prefix(res, dst) && headok(res, len(dst)) && mt(res, len(dst)) == 4 && argof(res, len(dst)) == uint64(len(vals))
+//@   ensures ncalls(Encoder.AppendString) == old(ncalls(Encoder.AppendString)) + len(vals)
+//@   ensures! emitsvalue(res, dst)
+//@   loop 1:
+//@     invariant 0 <= rangeindex + 1 && rangeindex + 1 <= len(vals)
+//@     invariant prefix(dst, dst0) && len(dst) >= len(dst0) + headlen(dst, len(dst0)) && headok(dst, len(dst0)) && mt(dst, len(dst0)) == 4 && argof(dst, len(dst0)) == uint64(len(vals))
+//@     invariant ncalls(Encoder.AppendString) == old(ncalls(Encoder.AppendString)) + rangeindex + 1
+
+//@ func (Encoder).AppendBools(e, dst, vals) res
+//@   props C09 C08 C01 C02 C03
+//@   arith int
+//@   flag noovf
+//@   flag tags binary_log
+//@   requires true
+//@   ensures len(vals) == 0 ==> prefix(res, dst) && len(res) == len(dst) + 2 && res[len(dst)] == 0x9f && res[len(dst) + 1] == 0xff
+//@   ensures len(vals) > 0 ==> prefix(res, dst) && headok(res, len(dst)) && mt(res, len(dst)) == 4 && argof(res, len(dst)) == uint64(len(vals))
+//@   ensures len(vals) > 0 ==> ncalls(Encoder.AppendBool) == old(ncalls(Encoder.AppendBool)) + len(vals)
+//@   ensures! emitsvalue(res, dst)
+//@   loop 1:
+//@     invariant 0 <= rangeindex + 1 && rangeindex + 1 <= len(vals) && len(vals) > 0
+//@     invariant prefix(dst, dst0) && len(dst) >= len(dst0) + headlen(dst, len(dst0)) && headok(dst, len(dst0)) && mt(dst, len(dst0)) == 4 && argof(dst, len(dst0)) == uint64(len(vals))
+//@     invariant ncalls(Encoder.AppendBool) == old(ncalls(Encoder.AppendBool)) + rangeindex + 1
+
+//@ func (Encoder).AppendInts(e, dst, vals) res
+//@   props C09 C08 C01 C02 C03
+//@   arith int
+//@   flag noovf
+//@   flag tags binary_log
+//@   requires true
+//@   ensures len(vals) == 0 ==> prefix(res, dst) && len(res) == len(dst) + 2 && res[len(dst)] == 0x9f && res[len(dst) + 1] == 0xff
+//@   ensures len(vals) > 0 ==> prefix(res, dst) && headok(res, len(dst)) && mt(res, len(dst)) == 4 && argof(res, len(dst)) == uint64(len(vals))
+//@   ensures len(vals) > 0 ==> ncalls(Encoder.AppendInt) == old(ncalls(Encoder.AppendInt)) + len(vals)
+//@   ensures! emitsvalue(res, dst)
+//@   loop 1:
+//@     invariant 0 <= rangeindex + 1 && rangeindex + 1 <= len(vals) && len(vals) > 0
+//@     invariant prefix(dst, dst0) && len(dst) >= len(dst0) + headlen(dst, len(dst0)) && headok(dst, len(dst0)) && mt(dst, len(dst0)) == 4 && argof(dst, len(dst0)) == uint64(len(vals))
+//@     invariant ncalls(Encoder.AppendInt) == old(ncalls(Encoder.AppendInt)) + rangeindex + 1
+
+//@ func (Encoder).AppendInts8(e, dst, vals) res
+//@   props C09 C08 C01 C02 C03
+//@   arith int
+//@   flag noovf
+//@   flag tags binary_log
+//@   requires true
+//@   ensures len(vals) == 0 ==> prefix(res, dst) && len(res) == len(dst) + 2 && res[len(dst)] == 0x9f && res[len(dst) + 1] == 0xff
+//@   ensures len(vals) > 0 ==> prefix(res, dst) && headok(res, len(dst)) && mt(res, len(dst)) == 4 && argof(res, len(dst)) == uint64(len(vals))
+//@   ensures len(vals) > 0 ==> ncalls(Encoder.AppendInt) == old(ncalls(Encoder.AppendInt)) + len(vals)
+//@   ensures! emitsvalue(res, dst)
+//@   loop 1:
+//@     invariant 0 <= rangeindex + 1 && rangeindex + 1 <= len(vals) && len(vals) > 0
+//@     invariant prefix(dst, dst0) && len(dst) >= len(dst0) + headlen(dst, len(dst0)) && headok(dst, len(dst0)) && mt(dst, len(dst0)) == 4 && argof(dst, len(dst0)) == uint64(len(vals))
+//@     invariant ncalls(Encoder.AppendInt) == old(ncalls(Encoder.AppendInt)) + rangeindex + 1
+
+//@ func (Encoder).AppendInts16(e, dst, vals) res
+//@   props C09 C08 C01 C02 C03
+//@   arith int
+//@   flag noovf
+//@   flag tags binary_log
+//@   requires true
+//@   ensures len(vals) == 0 ==> prefix(res, dst) && len(res) == len(dst) + 2 && res[len(dst)] == 0x9f && res[len(dst) + 1] == 0xff
+//@   ensures len(vals) > 0 ==> prefix(res, dst) && headok(res, len(dst)) && mt(res, len(dst)) == 4 && argof(res, len(dst)) == uint64(len(vals))
+//@   ensures len(vals) > 0 ==> ncalls(Encoder.AppendInt) == old(ncalls(Encoder.AppendInt)) + len(vals)
+//@   ensures! emitsvalue(res, dst)
+//@   loop 1:
+//@     invariant 0 <= rangeindex + 1 && rangeindex + 1 <= len(vals) && len(vals) > 0
+//@     invariant prefix(dst, dst0) && len(dst) >= len(dst0) + headlen(dst, len(dst0)) && headok(dst, len(dst0)) && mt(dst, len(dst0)) == 4 && argof(dst, len(dst0)) == uint64(len(vals))
+//@     invariant ncalls(Encoder.AppendInt) == old(ncalls(Encoder.AppendInt)) + rangeindex + 1
+
+//@ func (Encoder).AppendInts32(e, dst, vals) res
+//@   props C09 C08 C01 C02 C03
+//@   arith int
+//@   flag noovf
+//@   flag tags binary_log
+//@   requires true
+//@   ensures len(vals) == 0 ==> prefix(res, dst) && len(res) == len(dst) + 2 && res[len(dst)] == 0x9f && res[len(dst) + 1] == 0xff
+//@   ensures len(vals) > 0 ==> prefix(res, dst) && headok(res, len(dst)) && mt(res, len(dst)) == 4 && argof(res, len(dst)) == uint64(len(vals))
+//@   ensures len(vals) > 0 ==> ncalls(Encoder.AppendInt) == old(ncalls(Encoder.AppendInt)) + len(vals)
+//@   ensures! emitsvalue(res, dst)
+//@   loop 1:
+//@     invariant 0 <= rangeindex + 1 && rangeindex + 1 <= len(vals) && len(vals) > 0
+//@     invariant prefix(dst, dst0) && len(dst) >= len(dst0) + headlen(dst, len(dst0)) && headok(dst, len(dst0)) && mt(dst, len(dst0)) == 4 && argof(dst, len(dst0)) == uint64(len(vals))
+//@     invariant ncalls(Encoder.AppendInt) == old(ncalls(Encoder.AppendInt)) + rangeindex + 1
+
+//@ func (Encoder).AppendInts64(e, dst, vals) res
+//@   props C09 C08 C01 C02 C03
+//@   arith int
+//@   flag noovf
+//@   flag tags binary_log
+//@   requires true
+//@   ensures len(vals) == 0 ==> prefix(res, dst) && len(res) == len(dst) + 2 && res[len(dst)] == 0x9f && res[len(dst) + 1] == 0xff
+//@   ensures len(vals) > 0 ==> prefix(res, dst) && headok(res, len(dst)) && mt(res, len(dst)) == 4 && argof(res, len(dst)) == uint64(len(vals))
+//@   ensures len(vals) > 0 ==> ncalls(Encoder.AppendInt64) == old(ncalls(Encoder.AppendInt64)) + len(vals)
+//@   ensures! emitsvalue(res, dst)
+//@   loop 1:
+//@     invariant 0 <= rangeindex + 1 && rangeindex + 1 <= len(vals) && len(vals) > 0
+//@     invariant prefix(dst, dst0) && len(dst) >= len(dst0) + headlen(dst, len(dst0)) && headok(dst, len(dst0)) && mt(dst, len(dst0)) == 4 && argof(dst, len(dst0)) == uint64(len(vals))
+//@     invariant ncalls(Encoder.AppendInt64) == old(ncalls(Encoder.AppendInt64)) + rangeindex + 1
+
+//@ func (Encoder).AppendUints(e, dst, vals) res
+//@   props C09 C08 C01 C02 C03
+//@   arith int
+//@   flag noovf
+//@   flag tags binary_log
+//@   requires true
+//@   ensures len(vals) == 0 ==> prefix(res, dst) && len(res) == len(dst) + 2 && res[len(dst)] == 0x9f && res[len(dst) + 1] == 0xff
+//@   ensures len(vals) > 0 ==> prefix(res, dst) && headok(res, len(dst)) && mt(res, len(dst)) == 4 && argof(res, len(dst)) == uint64(len(vals))
+//@   ensures len(vals) > 0 ==> ncalls(Encoder.AppendUint) == old(ncalls(Encoder.AppendUint)) + len(vals)
+//@   ensures! emitsvalue(res, dst)
+//@   loop 1:
+//@     invariant 0 <= rangeindex + 1 && rangeindex + 1 <= len(vals) && len(vals) > 0
+//@     invariant prefix(dst, dst0) && len(dst) >= len(dst0) + headlen(dst, len(dst0)) && headok(dst, len(dst0)) && mt(dst, len(dst0)) == 4 && argof(dst, len(dst0)) == uint64(len(vals))
+//@     invariant ncalls(Encoder.AppendUint) == old(ncalls(Encoder.AppendUint)) + rangeindex + 1
+
+//@ func (Encoder).AppendUints8(e, dst, vals) res
+//@   props C09 C08 C01 C02 C03
+//@   arith int
+//@   flag noovf
+//@   flag tags binary_log
+//@   requires true
+//@   ensures len(vals) == 0 ==> prefix(res, dst) && len(res) == len(dst) + 2 && res[len(dst)] == 0x9f && res[len(dst) + 1] == 0xff
+//@   ensures len(vals) > 0 ==> prefix(res, dst) && headok(res, len(dst)) && mt(res, len(dst)) == 4 && argof(res, len(dst)) == uint64(len(vals))
+//@   ensures len(vals) > 0 ==> ncalls(Encoder.AppendUint8) == old(ncalls(Encoder.AppendUint8)) + len(vals)
+//@   ensures! emitsvalue(res, dst)
+//@   loop 1:
+//@     invariant 0 <= rangeindex + 1 && rangeindex + 1 <= len(vals) && len(vals) > 0
+//@     invariant prefix(dst, dst0) && len(dst) >= len(dst0) + headlen(dst, len(dst0)) && headok(dst, len(dst0)) && mt(dst, len(dst0)) == 4 && argof(dst, len(dst0)) == uint64(len(vals))
+//@     invariant ncalls(Encoder.AppendUint8) == old(ncalls(Encoder.AppendUint8)) + rangeindex + 1
+
+//@ func (Encoder).AppendUints16(e, dst, vals) res
+//@   props C09 C08 C01 C02 C03
+//@   arith int
+//@   flag noovf
+//@   flag tags binary_log
+//@   requires true
+//@   ensures len(vals) == 0 ==> prefix(res, dst) && len(res) == len(dst) + 2 && res[len(dst)] == 0x9f && res[len(dst) + 1] == 0xff
+//@   ensures len(vals) > 0 ==> prefix(res, dst) && headok(res, len(dst)) && mt(res, len(dst)) == 4 && argof(res, len(dst)) == uint64(len(vals))
+//@   ensures len(vals) > 0 ==> ncalls(Encoder.AppendUint16) == old(ncalls(Encoder.AppendUint16)) + len(vals)
+//@   ensures! emitsvalue(res, dst)
+//@   loop 1:
+//@     invariant 0 <= rangeindex + 1 && rangeindex + 1 <= len(vals) && len(vals) > 0
+//@     invariant prefix(dst, dst0) && len(dst) >= len(dst0) + headlen(dst, len(dst0)) && headok(dst, len(dst0)) && mt(dst, len(dst0)) == 4 && argof(dst, len(dst0)) == uint64(len(vals))
+//@     invariant ncalls(Encoder.AppendUint16) == old(ncalls(Encoder.AppendUint16)) + rangeindex + 1
+
+//@ func (Encoder).AppendUints32(e, dst, vals) res
+//@   props C09 C08 C01 C02 C03
+//@   arith int
+//@   flag noovf
+//@   flag tags binary_log
+//@   requires true
+//@   ensures len(vals) == 0 ==> prefix(res, dst) && len(res) == len(dst) + 2 && res[len(dst)] == 0x9f && res[len(dst) + 1] == 0xff
+//@   ensures len(vals) > 0 ==> prefix(res, dst) && headok(res, len(dst)) && mt(res, len(dst)) == 4 && argof(res, len(dst)) == uint64(len(vals))
+//@   ensures len(vals) > 0 ==> ncalls(Encoder.AppendUint32) == old(ncalls(Encoder.AppendUint32)) + len(vals)
+//@   ensures! emitsvalue(res, dst)
+//@   loop 1:
+//@     invariant 0 <= rangeindex + 1 && rangeindex + 1 <= len(vals) && len(vals) > 0
+//@     invariant prefix(dst, dst0) && len(dst) >= len(dst0) + headlen(dst, len(dst0)) && headok(dst, len(dst0)) && mt(dst, len(dst0)) == 4 && argof(dst, len(dst0)) == uint64(len(vals))
+//@     invariant ncalls(Encoder.AppendUint32) == old(ncalls(Encoder.AppendUint32)) + rangeindex + 1
+
+//@ func (Encoder).AppendUints64(e, dst, vals) res
+//@   props C09 C08 C01 C02 C03
+//@   arith int
+//@   flag noovf
+//@   flag tags binary_log
+//@   requires true
+//@   ensures len(vals) == 0 ==> prefix(res, dst) && len(res) == len(dst) + 2 && res[len(dst)] == 0x9f && res[len(dst) + 1] == 0xff
+//@   ensures len(vals) > 0 ==> prefix(res, dst) && headok(res, len(dst)) && mt(res, len(dst)) == 4 && argof(res, len(dst)) == uint64(len(vals))
+//@   ensures len(vals) > 0 ==> ncalls(Encoder.AppendUint64) == old(ncalls(Encoder.AppendUint64)) + len(vals)
+//@   ensures! emitsvalue(res, dst)
+//@   loop 1:
+//@     invariant 0 <= rangeindex + 1 && rangeindex + 1 <= len(vals) && len(vals) > 0
+//@     invariant prefix(dst, dst0) && len(dst) >= len(dst0) + headlen(dst, len(dst0)) && headok(dst, len(dst0)) && mt(dst, len(dst0)) == 4 && argof(dst, len(dst0)) == uint64(len(vals))
+//@     invariant ncalls(Encoder.AppendUint64) == old(ncalls(Encoder.AppendUint64)) + rangeindex + 1
+
+//@ func (Encoder).AppendFloats32(e, dst, vals, unused) res
+//@   props C09 C08 C01 C02 C03
+//@   arith int
+//@   flag noovf
+//@   flag tags binary_log
+//@   requires true
+//@   ensures len(vals) == 0 ==> prefix(res, dst) && len(res) == len(dst) + 2 && res[len(dst)] == 0x9f && res[len(dst) + 1] == 0xff
+//@   ensures len(vals) > 0 ==> prefix(res, dst) && headok(res, len(dst)) && mt(res, len(dst)) == 4 && argof(res, len(dst)) == uint64(len(vals))
+//@   ensures len(vals) > 0 ==> ncalls(Encoder.AppendFloat32) == old(ncalls(Encoder.AppendFloat32)) + len(vals)
+//@   ensures! emitsvalue(res, dst)
+//@   loop 1:
+//@     invariant 0 <= rangeindex + 1 && rangeindex + 1 <= len(vals) && len(vals) > 0
+//@     invariant prefix(dst, dst0) && len(dst) >= len(dst0) + headlen(dst, len(dst0)) && headok(dst, len(dst0)) && mt(dst, len(dst0)) == 4 && argof(dst, len(dst0)) == uint64(len(vals))
+//@     invariant ncalls(Encoder.AppendFloat32) == old(ncalls(Encoder.AppendFloat32)) + rangeindex + 1
+
+//@ func (Encoder).AppendFloats64(e, dst, vals, unused) res
+//@   props C09 C08 C01 C02 C03
+//@   arith int
+//@   flag noovf
+//@   flag tags binary_log
+//@   requires true
+//@   ensures len(vals) == 0 ==> prefix(res, dst) && len(res) == len(dst) + 2 && res[len(dst)] == 0x9f && res[len(dst) + 1] == 0xff
+//@   ensures len(vals) > 0 ==> prefix(res, dst) && headok(res, len(dst)) && mt(res, len(dst)) == 4 && argof(res, len(dst)) == uint64(len(vals))
+//@   ensures len(vals) > 0 ==> ncalls(Encoder.AppendFloat64) == old(ncalls(Encoder.AppendFloat64)) + len(vals)
+//@   ensures! emitsvalue(res, dst)
+//@   loop 1:
+//@     invariant 0 <= rangeindex + 1 && rangeindex + 1 <= len(vals) && len(vals) > 0
+//@     invariant prefix(dst, dst0) && len(dst) >= len(dst0) + headlen(dst, len(dst0)) && headok(dst, len(dst0)) && mt(dst, len(dst0)) == 4 && argof(dst, len(dst0)) == uint64(len(vals))
+//@     invariant ncalls(Encoder.AppendFloat64) == old(ncalls(Encoder.AppendFloat64)) + rangeindex + 1
+
+//@ func (Encoder).AppendTimes(e, dst, vals, unused) res
+//@   props C09 C08 C01 C02 C03
+//@   arith int
+//@   flag noovf
+//@   flag tags binary_log
+//@   requires true
+//@   ensures len(vals) == 0 ==> prefix(res, dst) && len(res) == len(dst) + 2 && res[len(dst)] == 0x9f && res[len(dst) + 1] == 0xff
+//@   ensures len(vals) > 0 ==> prefix(res, dst) && headok(res, len(dst)) && mt(res, len(dst)) == 4 && argof(res, len(dst)) == uint64(len(vals))
+//@   ensures len(vals) > 0 ==> ncalls(Encoder.AppendTime) == old(ncalls(Encoder.AppendTime)) + len(vals)
+//@   ensures! emitsvalue(res, dst)
+//@   loop 1:
+//@     invariant 0 <= rangeindex + 1 && rangeindex + 1 <= len(vals) && len(vals) > 0
+//@     invariant prefix(dst, dst0) && len(dst) >= len(dst0) + headlen(dst, len(dst0)) && headok(dst, len(dst0)) && mt(dst, len(dst0)) == 4 && argof(dst, len(dst0)) == uint64(len(vals))
+//@     invariant ncalls(Encoder.AppendTime) == old(ncalls(Encoder.AppendTime)) + rangeindex + 1
+
+//@ func (Encoder).AppendDurations(e, dst, vals, unit, useInt, unused) res
+//@   props C09 C08 C01 C02 C03
+//@   arith int
+//@   flag noovf
+//@   flag tags binary_log
+//@   requires true && (useInt ==> unit != 0)
+//@   ensures len(vals) == 0 ==> prefix(res, dst) && len(res) == len(dst) + 2 && res[len(dst)] == 0x9f && res[len(dst) + 1] == 0xff
+//@   ensures len(vals) > 0 ==> prefix(res, dst) && headok(res, len(dst)) && mt(res, len(dst)) == 4 && argof(res, len(dst)) == uint64(len(vals))
+//@   ensures len(vals) > 0 ==> ncalls(Encoder.AppendDuration) == old(ncalls(Encoder.AppendDuration)) + len(vals)
+//@   ensures! emitsvalue(res, dst)
+//@   loop 1:
+//@     invariant 0 <= rangeindex + 1 && rangeindex + 1 <= len(vals) && len(vals) > 0
+//@     invariant prefix(dst, dst0) && len(dst) >= len(dst0) + headlen(dst, len(dst0)) && headok(dst, len(dst0)) && mt(dst, len(dst0)) == 4 && argof(dst, len(dst0)) == uint64(len(vals))
+//@     invariant ncalls(Encoder.AppendDuration) == old(ncalls(Encoder.AppendDuration)) + rangeindex + 1
+
+//@ func (Encoder).AppendFloat32(e, dst, val, unused) res
+//@   props C09 C08 C01 C02 C03
+//@   arith int
+//@   flag noovf
+//@   flag tags binary_log
+//@   ensures prefix(res, dst) && len(res) == len(dst) + 5 && res[len(dst)] == 0xfa
+//@   ensures! emitsvalue(res, dst)
+//@   loop 1:
+//@     invariant i <= 4
+
+//@ func (Encoder).AppendFloat64(e, dst, val, unused) res
+//@   props C09 C08 C01 C02 C03
+//@   arith int
+//@   flag noovf
+//@   flag tags binary_log
+//@   ensures prefix(res, dst) && len(res) == len(dst) + 9 && res[len(dst)] == 0xfb
+//@   ensures! emitsvalue(res, dst)
+//@   loop 1:
+//@     invariant 1 <= i && i <= 9 && prefix(dst, dst0) && len(dst) == len(dst0) + i && dst[len(dst0)] == 0xfb
+
+//@ func appendIntegerTimestamp(dst, t) res
+//@   props C09 C08 C01 C02 C03
+//@   arith int
+//@   flag noovf
+//@   flag tags binary_log
+//@   ensures prefix(res, dst) && res[len(dst)] == 0xc1 && len(res) == len(dst) + 1 + headlen(res, len(dst) + 1) && mt(res, len(dst) + 1) <= 1
+//@   ensures! emitsvalue(res, dst)
+
+//@ func (Encoder).appendFloatTimestamp(e, dst, t) res
+//@   props C09 C08 C01 C02 C03
+//@   arith int
+//@   flag noovf
+//@   flag tags binary_log
+//@   ensures prefix(res, dst) && res[len(dst)] == 0xc1 && res[len(dst) + 1] == 0xfb && len(res) == len(dst) + 10
+//@   ensures! emitsvalue(res, dst)
+
+//@ func (Encoder).AppendTime(e, dst, t, unused) res
+//@   props C09 C08 C01 C02 C03
+//@   arith int
+//@   flag noovf
+//@   flag tags binary_log
+//@   ensures prefix(res, dst) && res[len(dst)] == 0xc1 && len(res) > len(dst) + 1
+//@   ensures! emitsvalue(res, dst)
+
+//@ func (Encoder).AppendDuration(e, dst, d, unit, useInt, unused) res
+//@   props C09 C08 C01 C02 C03
+//@   arith int
+//@   flag noovf
+//@   flag tags binary_log
+//@   requires (useInt ==> unit != 0)
+//@   ensures prefix(res, dst) && len(res) > len(dst)
+//@   ensures! emitsvalue(res, dst)
+
+//@ func (Encoder).AppendInterface(e, dst, i) res
+//@   props C09 C08 C01 C02 C03
+//@   arith int
+//@   flag noovf
+//@   flag tags binary_log
+//@   requires JSONMarshalFunc != nil
+//@   ensures prefix(res, dst) && len(res) > len(dst)
+//@   ensures! emitsvalue(res, dst)
+
+//@ func (Encoder).AppendType(e, dst, i) res
+//@   props C09 C08 C01 C02 C03
+//@   arith int
+//@   flag noovf
+//@   flag tags binary_log
+//@   ensures prefix(res, dst) && mt(res, len(dst)) == 3
+//@   ensures! emitsvalue(res, dst)
+
+//@ func (Encoder).AppendStringer(e, dst, val) res
+//@   props C09 C08 C01 C02 C03
+//@   arith int
+//@   flag noovf
+//@   flag tags binary_log
+//@   ensures prefix(res, dst) && len(res) > len(dst)
+//@   ensures! emitsvalue(res, dst)
+
+//@ func (Encoder).AppendStringers(e, dst, vals) res
+//@   props C09 C08 C01 C02 C03
+//@   arith int
+//@   flag noovf
+//@   flag tags binary_log
+//@   requires true
+//@   ensures prefix(res, dst) && res[len(dst)] == 0x9f && res[len(res) - 1] == 0xff
+//@   ensures ncalls(Encoder.AppendStringer) == old(ncalls(Encoder.AppendStringer)) + len(vals)
+//@   ensures! emitsvalue(res, dst)
+//@   loop 1:
+//@     invariant 0 <= rangeindex + 1 && rangeindex + 1 <= len(vals) - 1
+//@     invariant prefix(dst, dst0) && len(dst) > len(dst0) && dst[len(dst0)] == 0x9f
+//@     invariant ncalls(Encoder.AppendStringer) == old(ncalls(Encoder.AppendStringer)) + 1 + rangeindex + 1
+
+//@ func (Encoder).AppendIPPrefix(e, dst, pfx) res
+//@   props C09 C08 C01 C02 C03
+//@   arith int
+//@   flag noovf
+//@   flag tags binary_log
+//@   ensures prefix(res, dst) && res[len(dst)] == 0xd9 && res[len(dst) + 1] == 0x01 && res[len(dst) + 2] == 0x05 && res[len(dst) + 3] == 0xa1 && mt(res, len(dst) + 4) == 2
+//@   ensures! emitsvalue(res, dst)
